@@ -95,7 +95,6 @@ Proof. unfold tcp_close, tcp_state_of_close. destruct (s_state s) eqn:E; rproj; 
 Section Trace.
   Variable S : nat -> Z -> Z.
   Variable F : nat -> option Z.
-  Hypothesis F_nonneg : forall e f, F e = Some f -> 0 <= f.
 
   Definition delivered_ok (g : ghost) : Prop :=
     l_len (g_delivered g) = g_consumed g /\
@@ -202,7 +201,7 @@ Section Trace.
        exists irs, g_irs g = Some irs /\ F (g_epoch g) = Some (g_consumed g)) /\
     (forall ip r, ev = EvSegment ip r -> beyond_untouched s' s).
 
-  Lemma step_segment cx g s ip r s' rep tags :
+  Lemma step_segment (F_nonneg : forall e f, F e = Some f -> 0 <= f) cx g s ip r s' rep tags :
     ginv g s -> ev_ok g s (EvSegment ip r) ->
     iface_tcp_ingress cx s ip r = Ok (s', rep, tags) ->
     let g' := ghost_step cx g s (EvSegment ip r) s' (OReply rep) in
